@@ -70,25 +70,28 @@ def gen_line(rng, lenient):
             body = body.replace(' ', '\t', 1)
         if rng.random() < 0.05:
             body = body.replace(' ', '  ', 1)
-    b = body.encode()
+    bads = []
     r = rng.random()
     if r < 0.06:
-        pos = rng.randint(0, len(b))
-        b = b[:pos] + b'\x00' + b[pos:]
+        pos = rng.randint(0, len(body))
+        body = body[:pos] + '\x00' + body[pos:]
     elif r < 0.12:
-        ch = rng.choice(['é', '€', '\U0001d11e', 'ß'])
-        pos = rng.randint(0, len(b))
-        b = b[:pos] + ch.encode() + b[pos:]
+        ch = rng.choice(['\u00e9', '\u20ac', '\U0001d11e', '\u00df'])
+        pos = rng.randint(0, len(body))
+        body = body[:pos] + ch + body[pos:]
     if lenient and rng.random() < 0.15:
-        bad = rng.choice([b'\xff', b'\xc3', b'\xe2\x82', b'\x80', b'\xf0\x9f',
-                          b'\xc0\xaf', b'\xed\xa0\x80'])
-        pos = rng.randint(0, len(b))
-        b = b[:pos] + bad + b[pos:]
+        bads.append(rng.choice([b'\xff', b'\xc3', b'\xe2\x82', b'\x80',
+                                b'\xf0\x9f', b'\xc0\xaf', b'\xed\xa0\x80']))
+        pos = rng.randint(0, len(body))
+        body = body[:pos] + '\ue000' + body[pos:]    # placeholder
     if rng.random() < 0.10:
-        b += b'\r'
+        body += '\r'
     if rng.random() < 0.02:
-        pos = rng.randint(0, len(b))
-        b = b[:pos] + b'\r' + b[pos:]
+        pos = rng.randint(0, len(body))
+        body = body[:pos] + '\r' + body[pos:]
+    b = body.encode()
+    for bad in bads:
+        b = b.replace('\ue000'.encode(), bad, 1)
     return b
 
 
@@ -99,7 +102,8 @@ def gen_content(rng, lenient, nlines=None, long_ok=True):
     if long_ok and nlines and rng.random() < 0.05:
         i = rng.randrange(nlines)
         unit = rng.choice([b'aa ', b'bb ', b'x=3 ', b'a'])
-        lines[i] = unit * (8300 // len(unit) + rng.randint(0, 40)) + \
+        size = 66000 if rng.random() < 0.2 else 8300
+        lines[i] = unit * (size // len(unit) + rng.randint(0, 40)) + \
             rng.choice([b'', b'ERR', b'bb', b'aa'])
     content = b'\n'.join(lines)
     if nlines and rng.random() < 0.8:
@@ -170,11 +174,12 @@ def threshold_case(rng, nbuf, mx, nresults):
             'reg': reg, 'patch': [nbuf, mx]}
 
 
-def big_case(rng, total):
-    """ real constants, more than NUM_BUFFERED_RESULTS + MAX results """
-    lines = [b'aa 12'] * (total - 7) + [b'', b'bb 7', b'zz', b'aa 345',
-                                        b'bb 7', b'aa 12', b'x', b'ab 7',
-                                        b'aa 12', b'aa 7']
+def big_case(rng, nresults):
+    """ real constants: exactly `nresults` results (>= 20) on one file """
+    n0 = nresults - 4
+    lines = [b'aa 12'] * (n0 - 6) + [b'', b'bb 7', b'zz', b'aa 345',
+                                     b'bb 7', b'aa 12', b'x', b'ab 7',
+                                     b'aa 12', b'aa 7', b'ab 12']
     content = b'\n'.join(lines) + b'\n'
     defs = [{'patterns': [r'(\w\w) (\d+)'], 'hint': None, 'store': True,
              'tag': 't0', 'as_list': False, 'cons': []},
@@ -369,6 +374,16 @@ Definition run_spec (c : case) : jv :=
 
 
 # ---------------------------------------------------------- implementation
+EXC_NAMES = {}
+
+
+def failed(name):
+    """ observable of a run that raised / did not finish: [-1, [code]] """
+    code = sum(map(ord, name)) + 1000 * len(name)
+    EXC_NAMES[code] = name
+    return [-1, [code]]
+
+
 RUN_LIMIT = 20          # seconds per in-process run (normal: milliseconds)
 TIMEOUTS = [0]          # runs that hit the limit so far
 
@@ -387,7 +402,8 @@ class time_limit:  # pylint: disable=invalid-name
 
     def __enter__(self):
         self.old = signal.signal(signal.SIGALRM, self._fire)
-        signal.setitimer(signal.ITIMER_REAL, self.seconds)
+        # repeating: the task re-enters its flush loop in a `finally`
+        signal.setitimer(signal.ITIMER_REAL, self.seconds, 0.5)
 
     def __exit__(self, *exc):
         signal.setitimer(signal.ITIMER_REAL, 0)
@@ -454,15 +470,15 @@ def run_impl(case, path, vals):
             T.NUM_BUFFERED_RESULTS, T.QueueTransitBuffer.MAX = case['patch']
         if TIMEOUTS[0] >= 3:
             # the implementation keeps hanging: do not spend the budget
-            return [-1, ['RunTimeout']]
+            return failed('RunTimeout')
         try:
             with time_limit(RUN_LIMIT):
                 res = fs.run()
         except RunTimeout:
             TIMEOUTS[0] += 1
-            return [-1, ['RunTimeout']]
+            return failed('RunTimeout')
         except Exception as exc:  # pylint: disable=broad-except
-            return [-1, [type(exc).__name__]]
+            return failed(type(exc).__name__)
     finally:
         T.NUM_BUFFERED_RESULTS, T.QueueTransitBuffer.MAX = saved
     return observe(res, path, case, vals)
@@ -607,7 +623,7 @@ def brief(v, limit=4000):
 def sig_of(case, want, other):
     """ short stable description of the failing shape """
     if isinstance(want, list) and want and want[0] == -1:
-        return f"exception {want[1][0]}"
+        return f"exception {EXC_NAMES.get(want[1][0], want[1][0])}"
     try:
         wn, on = want[0], other[0]
         if wn > on:
@@ -664,15 +680,21 @@ def run(chk):
         chk.sample({'case': case, 'implementation': brief(want, 600)})
     # real constants, > NUM_BUFFERED_RESULTS + MAX results
     import searchkit.task as T
-    total = T.NUM_BUFFERED_RESULTS + T.QueueTransitBuffer.MAX + 15
-    if total <= 40000:
-        bigs = [big_case(rng, total)]
+    nbuf, mx = T.NUM_BUFFERED_RESULTS, T.QueueTransitBuffer.MAX
+    if 20 <= nbuf <= 40000 and 0 < mx <= 1000:
+        targets = [nbuf + mx + 15]
         if not chk.quick:
-            bigs.append(big_case(rng, 2 * T.NUM_BUFFERED_RESULTS + 3))
+            targets += [nbuf - 1, nbuf, nbuf + 1, nbuf + mx, 2 * nbuf + 3]
+        bigs = [big_case(rng, t) for t in targets]
         bw = evaluate(chk, bigs, 'c01big', shard=1)
-        chk.sample({'big_case_results': bw[0][0], 'lines': total + 3})
+        for t, w in zip(targets, bw):
+            chk.dist('real-constants-results=%s' % w[0])
+            if w[0] != t:
+                chk.notes.append(f"big case aimed at {t} results, the "
+                                 f"implementation reported {w[0]}")
+        chk.sample({'big_case_results': [w[0] for w in bw]})
     else:
-        chk.notes.append("NUM_BUFFERED_RESULTS too large for the real-"
+        chk.notes.append("flush constants outside the range of the real-"
                          "constants case; thresholds covered by the patched "
                          "runs only")
     chk.assumptions += [
